@@ -28,9 +28,10 @@ pub fn scenario() -> impl Strategy<Value = Scenario> {
 			tree_col.rc = true;
 			tree_col.preimage = true;
 		}
-		let cfg = DbCfg::new(vec![tree_col, ColCfg::hash()]);
+		// a hash column and a btree column are written by the same transactions
+		let cfg = DbCfg::new(vec![tree_col, ColCfg::hash(), ColCfg::btree()]);
 		let ins = |k: std::ops::Range<u16>| (k, tree_spec(3, false)).prop_map(|(k, t)| Item { col: 0, ch: Change::InsertTree(k, t) });
-		let set = (0u16..8, small_vspec()).prop_map(|(k, v)| Item { col: 1, ch: Change::Set(k, v) }).boxed();
+		let set = (1u8..3, 0u16..8, small_vspec()).prop_map(|(col, k, v)| Item { col, ch: Change::Set(k, v) }).boxed();
 		let setup_op = prop_oneof![
 			6 => ins(0..20).prop_map(|i| Op::Commit(vec![i])),
 			2 => (ins(0..20), set.clone()).prop_map(|(a, b)| Op::Commit(vec![a, b])),
